@@ -710,11 +710,12 @@ fn c13_rtreeindex_empty_terminates() {
 
 // @harness c09_chrom_tree_two
 // @props C09 C01 C02
-// @tier thorough
+// @tier off
 // @kind stretch
 // @timeout 7200
 // @mem 32
 // @flags c-ffi
+// @measured timeout after 7200 s in symbolic execution (hashbrown SIMD probing, two insertions per map); kept off
 // @functions bbiwrite::write_chrom_tree (std HashMap with real SipHash / hashbrown)
 // @bounds 2 chromosomes with data whose names have different lengths, the longer one first in id order ("bb" id 0, "a" id 1); sizes symbolic
 // @stubs std RandomState::new -> fixed hash keys; alloc::fmt::format -> empty
@@ -756,19 +757,19 @@ fn c09_chrom_tree_two() {
 
 // @harness c09_chrom_tree_three
 // @props C09 C01 C02
-// @tier off
+// @tier quick
 // @kind core
 // @timeout 1800
 // @mem 16
-// @sub src/bbi/bbiwrite.rs ::: use std::collections::{BTreeMap, HashMap}; ::: use std::collections::BTreeMap; use crate::verif_support::hmap::HashMap; ||| src/bbi/bbiwrite.rs ::: chrom_sizes: std::collections::HashMap<String, u32>, ::: chrom_sizes: HashMap<String, u32>, ||| src/bbi/bbiwrite.rs ::: chrom_ids: &std::collections::HashMap<String, u32>, ::: chrom_ids: &HashMap<String, u32>, ||| src/bbi/bigwigwrite.rs ::: use std::collections::HashMap; ::: use crate::verif_support::hmap::HashMap; ::: 2 ||| src/bbi/bigbedwrite.rs ::: use std::collections::HashMap; ::: use crate::verif_support::hmap::HashMap; ||| src/utils/idmap.rs ::: use std::collections::HashMap; ::: use crate::verif_support::hmap::HashMap;
-// @functions bbiwrite::write_chrom_tree (through std BufWriter) and utils::idmap::IdMap::get_id / get_map, with std HashMap replaced by the association-list model verif_support::hmap in the scratch copy (six import/type substitutions)
+// @sub src/bbi/bbiwrite.rs ::: use std::collections::{BTreeMap, HashMap}; ::: use std::collections::BTreeMap; use crate::verif_support::hmapw::HashMap; ||| src/bbi/bbiwrite.rs ::: chrom_sizes: std::collections::HashMap<String, u32>, ::: chrom_sizes: HashMap<String, u32>, ||| src/bbi/bbiwrite.rs ::: chrom_ids: &std::collections::HashMap<String, u32>, ::: chrom_ids: &HashMap<String, u32>, ||| src/bbi/bigwigwrite.rs ::: use std::collections::HashMap; ::: use crate::verif_support::hmapw::HashMap; ::: 2 ||| src/bbi/bigbedwrite.rs ::: use std::collections::HashMap; ::: use crate::verif_support::hmapw::HashMap; ||| src/utils/idmap.rs ::: use std::collections::HashMap; ::: use crate::verif_support::hmapw::HashMap;
+// @functions bbiwrite::write_chrom_tree (through std BufWriter) and utils::idmap::IdMap::get_id / get_map, with std HashMap replaced by the association-list model verif_support::hmapw in the scratch copy (six import/type substitutions)
 // @bounds 3 chromosomes with data whose ids come from IdMap in first-seen order "ccc", "a", "bb" (name lengths 3, 1, 2: a shorter key after a longer one), looked up again afterwards; the size table lists them in another order plus a chromosome without data ("zz"); sizes symbolic, full width
 // @stubs alloc::fmt::format -> empty; core::ptr::copy_nonoverlapping -> element-wise typed copy loop (same contract; keeps the ids compared by the insertion sort constant)
 // @assumes std's HashMap behaves as a finite map with unspecified iteration order (the model iterates in reverse insertion order; it is not solver-checked against hashbrown, whose SIMD probing does not finish symbolic execution)
 // @cut more than 4 map entries; non-leaf chromosome tree nodes (the writer never produces them)
 // @witness cover: sizes differ
 #[kani::proof]
-#[kani::unwind(12)]
+#[kani::unwind(80)]
 #[kani::stub(core::ptr::copy_nonoverlapping, copy_typed_loop)]
 #[kani::stub(alloc::fmt::format, fake_format)]
 fn c09_chrom_tree_three() {
@@ -808,4 +809,35 @@ fn c09_chrom_tree_three() {
     assert!(st.len == 69, "[ct_len] chromosome tree length");
     let c1 = (sa != sb) & (sb != sc);
     kani::cover!(c1, "sizes differ");
+}
+
+fn spin_w(n: u64) -> u64 { let mut i = 0; while i < n { i += 1; } i }
+// @harness probe_idmap_constprop
+// @props X
+// @tier off
+// @kind stretch
+// @timeout 600
+// @mem 8
+// @sub src/bbi/bbiwrite.rs ::: use std::collections::{BTreeMap, HashMap}; ::: use std::collections::BTreeMap; use crate::verif_support::hmapw::HashMap; ||| src/bbi/bbiwrite.rs ::: chrom_sizes: std::collections::HashMap<String, u32>, ::: chrom_sizes: HashMap<String, u32>, ||| src/bbi/bbiwrite.rs ::: chrom_ids: &std::collections::HashMap<String, u32>, ::: chrom_ids: &HashMap<String, u32>, ||| src/bbi/bigwigwrite.rs ::: use std::collections::HashMap; ::: use crate::verif_support::hmapw::HashMap; ::: 2 ||| src/bbi/bigbedwrite.rs ::: use std::collections::HashMap; ::: use crate::verif_support::hmapw::HashMap; ||| src/utils/idmap.rs ::: use std::collections::HashMap; ::: use crate::verif_support::hmapw::HashMap;
+// @functions probe only
+// @bounds probe
+#[kani::proof]
+#[kani::unwind(20)]
+#[kani::stub(core::ptr::copy_nonoverlapping, copy_typed_loop)]
+#[kani::stub(alloc::fmt::format, fake_format)]
+fn probe_idmap_constprop() {
+    let mut idmap = crate::utils::idmap::IdMap::default();
+    let i0 = idmap.get_id("ccc");
+    let i1 = idmap.get_id("a");
+    let i0b = idmap.get_id("ccc");
+    let i2 = idmap.get_id("bb");
+    let r = spin_w(i0 as u64 + 1) + spin_w(i1 as u64 + 1) + spin_w(i0b as u64 + 1) + spin_w(i2 as u64 + 1);
+    let ids = idmap.get_map();
+    let mut chroms: Vec<(&String, &u32)> = ids.iter().collect();
+    let r2 = spin_w(chroms.len() as u64) + spin_w(*chroms[0].1 as u64 + 1);
+    chroms.sort_by_key(|v| *v.1);
+    let r3 = spin_w(*chroms[0].1 as u64 + 1) + spin_w(*chroms[2].1 as u64 + 1);
+    assert!(r == 7 && r2 == 6 && r3 == 4);
+    core::mem::forget(chroms);
+    core::mem::forget(ids);
 }
